@@ -93,19 +93,19 @@ def loops_in_scope(levels, scope):
     return sum(1 for c, _ in lv if c in LOOPS)
 
 
-def specs_for_chain(levels):
+def specs_for_chain(levels, deco_set=(0, 1, 2, 3), styles=STYLES, scopes=SCOPES):
     """All program specs for one chain of (construct, slot) levels - deterministic order, simplest first."""
     levels = [tuple(x) for x in levels]
     loop_pos = [d for d, (c, _) in enumerate(levels) if c in LOOPS]
-    for scope in SCOPES:
+    for scope in scopes:
         if scope == 'inner' and len(levels) < 1:
             continue
         nl = loops_in_scope(levels, scope)
         leaves = [0, 3] + ([1, 2] if nl else [])
         # decorations are only legal for loops in the same function as the guard: for 'inner', the level-0 loop is
         # outside the function but its own guards sit in its own body (global scope) -> still legal.
-        for style in STYLES:
-            for deco_combo in itertools.product(range(4), repeat=len(loop_pos)):
+        for style in styles:
+            for deco_combo in itertools.product(deco_set, repeat=len(loop_pos)):
                 decos = [0] * len(levels)
                 for p, dc in zip(loop_pos, deco_combo):
                     decos[p] = dc
@@ -113,13 +113,13 @@ def specs_for_chain(levels):
                     yield {'levels': [list(x) for x in levels], 'decos': decos, 'leaf': leaf, 'style': style, 'scope': scope}
 
 
-def count_for_chain(levels):
+def count_for_chain(levels, deco_set=(0, 1, 2, 3), styles=STYLES, scopes=SCOPES):
     levels = [tuple(x) for x in levels]
     nloops = sum(1 for c, _ in levels if c in LOOPS)
     total = 0
-    for scope in SCOPES:
+    for scope in scopes:
         nl = loops_in_scope(levels, scope)
-        total += len(STYLES) * (4 ** nloops) * (4 if nl else 2)
+        total += len(styles) * (len(deco_set) ** nloops) * (4 if nl else 2)
     return total
 
 
